@@ -8,9 +8,13 @@ import (
 	"encoding/hex"
 	"encoding/json"
 	"fmt"
+	"net/url"
 	"os"
+	"regexp"
 	"strconv"
 	"strings"
+
+	conv "github.com/spf13/cast"
 )
 
 func oracleMain() {
@@ -59,8 +63,92 @@ func answer(q string) (res string) {
 			return "err:" + err.Error()
 		}
 		return okHex(string(b))
+	case "cast":
+		j := strings.IndexByte(arg, ':')
+		if j < 0 {
+			return "err:cast-syntax"
+		}
+		p := &vparser{s: arg[j+1:]}
+		v := p.value(nil)
+		if p.bad {
+			return "err:render-syntax"
+		}
+		switch arg[:j] {
+		case "bool":
+			return okHex(render(conv.ToBool(v)))
+		case "int":
+			return okHex(render(conv.ToInt64(conv.ToFloat64(v))))
+		case "float":
+			return okHex(render(conv.ToFloat64(v)))
+		case "str":
+			return okHex(render(conv.ToString(v)))
+		}
+		return "err:cast-kind"
+	case "trim":
+		a := strings.SplitN(arg, ":", 2)
+		if len(a) != 2 {
+			return "err:syntax"
+		}
+		cut, cont := unhexs(a[0]), unhexs(a[1])
+		if cut == "" {
+			return okHex(strings.TrimSpace(cont))
+		}
+		return okHex(strings.Trim(cont, cut))
+	case "upper":
+		return okHex(strings.ToUpper(unhexs(arg)))
+	case "urldecode":
+		r, err := url.QueryUnescape(unhexs(arg))
+		if err != nil {
+			return "err:" + err.Error()
+		}
+		return okHex(r)
+	case "regexcompile":
+		if _, err := regexp.Compile(unhexs(arg)); err != nil {
+			return "err:" + err.Error()
+		}
+		return okHex("")
+	case "regexreplace":
+		a := strings.SplitN(arg, ":", 3)
+		if len(a) != 3 {
+			return "err:syntax"
+		}
+		re, err := regexp.Compile(unhexs(a[0]))
+		if err != nil {
+			return "err:" + err.Error()
+		}
+		return okHex(re.ReplaceAllString(unhexs(a[2]), unhexs(a[1])))
+	case "jsonload":
+		var m any
+		if err := json.Unmarshal([]byte(unhexs(arg)), &m); err != nil {
+			return "err:" + err.Error()
+		}
+		return okHex(render(m))
+	case "sprintf":
+		j := strings.IndexByte(arg, ':')
+		if j < 0 {
+			return "err:syntax"
+		}
+		f := unhexs(arg[:j])
+		vals := []any{}
+		for _, r := range strings.Split(arg[j+1:], ";") {
+			if r == "" {
+				continue
+			}
+			p := &vparser{s: r}
+			v := p.value(nil)
+			if p.bad {
+				return "err:render-syntax"
+			}
+			vals = append(vals, v)
+		}
+		return okHex(fmt.Sprintf(f, vals...))
 	}
 	return "err:unknown-engine " + eng
+}
+
+func unhexs(s string) string {
+	b, _ := hex.DecodeString(s)
+	return string(b)
 }
 
 // parser of the canonical rendering (render.go / Render.lean), rebuilding cycles
